@@ -14,7 +14,9 @@ META = {
     "level_note": ("Trusted: Lean kernel + standard axioms; hand-written world model validated by whole-simulation correspondence. The global claim "
                    "(every status an order ever passes through) is the per-step theorems plus the oracle that wraps BaseOrder._update_status in "
                    "every run; the replace handler's re-placement branch is covered by correspondence and oracle, not by a theorem. Betfair / Betdaq "
-                   "live handlers and order-stream mapping: live domain (C11, C12)."),
+                   "live handlers and order-stream mapping: live domain (C11, C12); Betdaq order class: Betdaq.lean (guards iff, in-flight exclusion, "
+                   "finality under every report and stream update, legal stream steps) tied to the real BetdaqOrder / BetdaqExecution / "
+                   "process_betdaq_current_order by its own correspondence stream."),
     "trusted_base": [],
     "assumptions": ["a refused (VIOLATION) order that never reached the exchange may be submitted again: VIOLATION -> PENDING is not counted as a "
                     "return to life (no bet id)"],
@@ -176,7 +178,9 @@ def run(res, tier, seed, model_ok, search):
     res.rule = ("whole simulation runs (fills, suspension lapses, removals, turn in-play, close; success / failure responses; requests fired at "
                 "orders in every status incl. in flight and complete; responses arriving after completion); every BaseOrder._update_status call "
                 "is wrapped and checked against the lifecycle table, every request compared with a before/after snapshot. non-trivial = a request "
-                "was accepted or rejected; distinct = scenario index")
+                "was accepted or rejected; distinct = scenario index. Live histories of C11 (stream / response races). Betdaq order class: "
+                "400 / 6000 random op sequences over 1-3 real BetdaqOrders (requests in every status, place / cancel / update handlers "
+                "with shuffled, missing and failed responses, order-stream updates with every Betdaq status and sequence number)")
     simcheck.run(res, "C03", tier, seed, model_ok, search, n_quick=400, n_thorough=10000)
     # live-exchange double (the histories of C11): an order never becomes live again after it was reported complete, and is
     # not reported complete while it still rests at the exchange
@@ -190,9 +194,16 @@ def run(res, tier, seed, model_ok, search):
         elif v["signature"] == "not-converged" and "complete local True exchange False" in v["what"] or (
                 v["signature"] == "not-converged" and "local status EXECUTION_COMPLETE" in v["what"]):
             res.violate("complete-while-resting-at-the-exchange", v["what"], v["replay"])
+    # the Betdaq order class: real BetdaqOrder guards, BetdaqExecution handlers and process_betdaq_current_order against the
+    # model of Betdaq.lean (`bdq` lines), with the same lifecycle oracle
+    import betdaqdomain
+    betdaqdomain.run(res, tier, seed, model_ok, search)
 
 
 def replay(payload):
+    if (payload.get("replay") or {}).get("domain") == "betdaq":
+        import betdaqdomain
+        return betdaqdomain.replay(payload)
     if "scenario" not in (payload.get("replay") or {}):
         from props import C11
         return C11.replay(payload)        # a live-domain history
